@@ -272,7 +272,16 @@ func runCLI(args ...string) (string, error) {
 		os.Stdout = wr
 		go func() { _, _ = io.Copy(io.Discard, r) }()
 	}
-	err := cmd.Execute()
+	var err error
+	func() {
+		// a panic in the tool is a crash of the real process: non-zero exit status
+		defer func() {
+			if p := recover(); p != nil {
+				err = fmt.Errorf("bbolt %s crashed: %v", args[0], p)
+			}
+		}()
+		err = cmd.Execute()
+	}()
 	if perr == nil {
 		os.Stdout = old
 		_ = wr.Close()
